@@ -1,6 +1,7 @@
 package checks
 
 import (
+	"fmt"
 	"errors"
 	"strconv"
 	"strings"
@@ -55,6 +56,28 @@ func runC05(c *Ctx) bool {
 				cs.Names[k] = "p" + strings.ReplaceAll(strings.ReplaceAll(n, "/", "_"), ".", "d")
 			}
 		}
+		c.Journal(cs)
+		evalC05(c, cs)
+		c.Progress(false)
+	}
+	// wide parents around 32 / 64 / 128 / 256 children with the first, a middle, the last-but-one
+	// and the last name written again later, and spines deeper than 64 / 128 levels with
+	// alternating last / not-last ancestors
+	var shapes [][2]any
+	for _, w := range []int{31, 32, 33, 34, 63, 64, 65, 66, 127, 128, 129, 255, 256, 257} {
+		d, n := gen.WideDup(w, []int{0, w / 2, w - 2, w - 1})
+		shapes = append(shapes, [2]any{d, n})
+	}
+	for _, depth := range []int{66, 70, 130} {
+		d, n := gen.DeepMixed(depth)
+		shapes = append(shapes, [2]any{d, n})
+	}
+	for k, sh := range shapes {
+		idx := base + nRand + k
+		if !c.Mine(idx) {
+			continue
+		}
+		cs := &Case{Idx: idx, Kind: "wide-or-deep", Depths: sh[0].([]int), Names: sh[1].([]string), Seed: uint64(idx)}
 		c.Journal(cs)
 		evalC05(c, cs)
 		c.Progress(false)
@@ -346,6 +369,95 @@ func evalC05(c *Ctx, cs *Case) {
 				viol("WalkIterFromRoot", "panic", PanicSig(o2.Panic, o2.Stack), map[string]any{"k": k, "stack": o2.Stack})
 			} else if after != k+1 || visits != k+1 || o2.Err != nil {
 				viol("WalkIterFromRoot", "visit-after-break", "", map[string]any{"k": k, "visits": visits, "err": errStr(o2.Err)})
+			}
+		}
+	}
+	// --- a sequence value that is kept and ranged over again (after a full pass, and after a pass
+	// that was left early): every pass walks the whole tree
+	for ri, root := range merged {
+		if ri > 1 {
+			break
+		}
+		want := model.Rows(model.Forest{root}, model.DefaultBranch)
+		for fam := 0; fam < 2; fam++ {
+			name := "WalkIterFromRoot(kept sequence)"
+			seq := gtree.WalkIterFromRoot(BuildRoot(root))
+			if fam == 1 {
+				name = "WalkIterProgrammably(kept sequence)"
+				seq = gtree.WalkIterProgrammably(BuildRoot(root))
+			}
+			passes := [][]model.Row{}
+			var perr error
+			var pan any
+			for pass := 0; pass < 3; pass++ {
+				var rows []model.Row
+				o := Guard(func() error {
+					for wn, err := range seq {
+						if err != nil {
+							return err
+						}
+						rows = append(rows, model.Row{Row: wn.Row(), Branch: wn.Branch(), Name: wn.Name(), Level: int(wn.Level()), Path: wn.Path(), HasChild: wn.HasChild()})
+						if pass == 1 && len(rows) == 1+len(want)/2 {
+							break // the second pass is left early; the third must be complete again
+						}
+					}
+					return nil
+				})
+				if o.Panic != nil {
+					pan = o.Panic
+				}
+				if o.Err != nil {
+					perr = o.Err
+				}
+				passes = append(passes, rows)
+			}
+			// a sequence obtained BEFORE the tree got more nodes: ranging over it afterwards shows a
+			// consistent tree - the current one (the library evaluates lazily) or, if an implementation
+			// chose to, the one at the time the sequence was obtained - never a mixture
+			{
+				g := BuildRoot(root)
+				var lazy func(yield func(*gtree.WalkerNode, error) bool)
+				if fam == 0 {
+					lazy = gtree.WalkIterFromRoot(g)
+				} else {
+					lazy = gtree.WalkIterProgrammably(g)
+				}
+				g.Add("zz_added_later").Add("zz_its_child")
+				grown := root.Clone()
+				grown.Kids = append(grown.Kids, &model.Node{Name: "zz_added_later", Kids: []*model.Node{{Name: "zz_its_child"}}})
+				wantNow := model.Rows(model.Merge(model.Forest{grown}), model.DefaultBranch)
+				var rows []model.Row
+				o := Guard(func() error {
+					for wn, err := range lazy {
+						if err != nil {
+							return err
+						}
+						rows = append(rows, model.Row{Row: wn.Row(), Branch: wn.Branch(), Name: wn.Name(), Level: int(wn.Level()), Path: wn.Path(), HasChild: wn.HasChild()})
+					}
+					return nil
+				})
+				c.Count("sequences_ranged_after_the_tree_grew", 1)
+				if o.Panic != nil || o.Err != nil || !(RowsEqual(rows, wantNow) || RowsEqual(rows, want)) {
+					var got []string
+					for _, x := range rows {
+						got = append(got, x.Row+"|"+x.Path)
+					}
+					viol(name, "rows.differ-from-model", "sequence-obtained-before-adds", map[string]any{"got": got, "err": errStr(o.Err)})
+				}
+			}
+			c.Eval(gen.HashString(fkey+"keptseq"+root.Name+strconv.Itoa(fam)), true)
+			c.Count("kept_sequence_passes", int64(len(passes)))
+			det := map[string]any{"passes": len(passes), "err": errStr(perr)}
+			switch {
+			case pan != nil:
+				viol(name, "panic", fmt.Sprint(pan), det)
+			case perr != nil:
+				viol(name, "walk.error", "kept-sequence", det)
+			case !RowsEqual(passes[0], want):
+				viol(name, "rows.differ-from-model", "kept-sequence/first-pass", det)
+			case len(passes) == 3 && !RowsEqual(passes[2], want):
+				det["third_pass_rows"] = len(passes[2])
+				viol(name, "rows.differ-from-model", "kept-sequence/later-pass", det)
 			}
 		}
 	}
